@@ -140,6 +140,17 @@ def _flat_read(A, x):
     return x * x.flat[3]
 
 
+def _scratch_constant(A, x):
+    # one scratch ndarray re-used for several data-independent weight vectors
+    w = np.zeros(3)
+    acc = x * 0.0
+    for k in range(3):
+        w[:] = 0.0
+        w[k] = k + 1.0
+        acc = acc + w * x
+    return acc * x
+
+
 def _paused(A, x):
     # recording is suspended with trace_off() and resumed with trace_on(): what ran while
     # recording was on is on the tape, what ran in between is not
@@ -250,6 +261,7 @@ def catalogue():
     add('augmented assignment through a view of a buffer', _inplace_through_view, group='buffer')
     add('augmented assignment through a second name', _inplace_alias, dom='nonzero', group='buffer')
     add('x*x.flat[3]', _flat_read, shape=(2, 2), group='index')
+    add('scratch ndarray constant re-used during recording', _scratch_constant, group='buffer')
     add('paused recording', _paused, group='buffer')
     add('paused recording twice', _paused_twice, group='buffer')
     add('prod(x)+sum(x*x)', lambda A, x: A.prod(x) + A.sum(x * x), group='reduce')
